@@ -285,12 +285,43 @@ PROPS['C01'] = dict(
     level_note='Trusted: Coq kernel, hand-written mirror tied by correspondence, ideal signatures and hashes, monotone root heights. Committee-changing root updates are outside the property. Five genuine defects were repaired (KNOWN_FINDINGS.txt); the theorem holds of the repaired code only (the old variants are proved to fork).',
 )
 
+PROPS['C15'] = dict(
+    props='props/C15.v',
+    models=['Bft', 'BftNet', 'BftLive'],
+    harness='c01',
+    args=dict(quick=['-prop', '15', '-runs', '40', '-ticks', '50', '-heal-rounds', '12'], escalated=['-prop', '15', '-runs', '100', '-ticks', '60', '-heal-rounds', '12'],
+              thorough=['-prop', '15', '-runs', '500', '-ticks', '80', '-heal-rounds', '12']),
+    fingerprint_groups=['Bft'],
+    rule='REAL bft.BFT replicas (harness/bftsim) in VIRTUAL time. An adversarial prefix (the random schedules of C01: loss, delay, duplication, '
+         'skipped ticks, one Byzantine validator below 1/3 following one of 8 strategies, root-chain notifications) leaves the correct replicas '
+         'in different rounds and phases, with locks on possibly different blocks and stored leader messages. Then the network heals: every '
+         'message is delivered within 1-50 ms, the Byzantine validator falls silent, and every phase timer fires after exactly the duration the '
+         'implementation prescribes for that phase and round. (V) every correct replica must commit, all the same value, within '
+         '11*(r0+1)+12 rounds of the heal (r0 = highest round at the heal); (M) the state the prefix left behind (round, locks, stored proposals) is '
+         'loaded into model/BftLive.v and the model\'s synchronous round from the aligned version of that state must commit the value the '
+         'real replicas committed when they held a lock (highest lock) and some value otherwise; non-trivial: healed runs that started with replicas '
+         'in different rounds or holding locks',
+    modelled='hand-modelled: the replica model of C01 (model/Bft.v, BftNet.v) plus model/BftLive.v: the synchronous round (12 stages ELECTION .. '
+             'COMMIT_PROCESS with all messages of the correct replicas delivered and a correct leader) and the alignment predicate. Not modelled '
+             '(validated on the implementation by the virtual-time run only): the time-out arithmetic that brings replicas into one round '
+             '(round r lasts (2r+1) x the base durations; the pacemaker jumps to the round +1/3 of the power reports), sortition\'s choice of leaders, '
+             'block gossip to replicas that fell behind.',
+    assumptions=['after the heal every message between correct replicas is delivered within the phase time-outs (partial synchrony)',
+                 'the leader of the synchronous round is correct (sortition elects a correct leader with probability proportional to the correct power; a Byzantine leader costs one round)',
+                 'ValidateProposal never accepts a proposal without a block or results (run_valid_sane; true of the controller, which rejects empty blocks)',
+                 'ideal signatures and hashes, committee-preserving root updates, total power below 2^63 (as in C01)'],
+    trusted_base=['model/BftLive.v (sync_round, aligned) is hand-written over the C01 replica model, which is tied to package bft by the C01 correspondence run on every C01 check',
+                  'the virtual-time event loop of harness/cmd/c01/heal.go re-implements the timer durations of bft.BFT (phase time-out x (2 round + 1), remaining round time after an interrupt)'],
+    level_text='Unbounded theorem: from EVERY state reachable under the C01 adversary (any committee, any Byzantine set below one third, any rounds, locks on different blocks, stored messages), a round that the correct replicas start together under a correct leader with their messages delivered ends with every correct replica committing one common value, which is the value of the highest lock held if any replica is locked. Partial: that the implementation\'s time-outs and pacemaker bring the replicas into one round after the network heals, and within how many rounds, is validated by a virtual-time simulation on real replicas (bound 11*(r0+1)+12 rounds observed to hold; recoveries of up to 37 rounds seen because nothing re-aligns phases - DESIGN.md O-10), not proved; the probability that sortition elects a correct leader is not modelled.',
+    level_note='Partial by construction: convergence of rounds in real time is simulated, not proved. Trusted: Coq kernel, the C01 replica model and its correspondence, the virtual-time loop of the harness.',
+)
+
 PROPS['C06'] = dict(
     props='props/C06.v',
-    models=['Proto', 'Replay', 'ReplayCheck'],
+    models=['Proto', 'Replay', 'ReplayCheck', 'Nonce'],
     harness='c06',
-    args=dict(quick=['-proto', '400', '-chains', '3', '-blocks', '14'], escalated=['-proto', '1200', '-chains', '8', '-blocks', '18'],
-              thorough=['-proto', '6000', '-chains', '40', '-blocks', '24']),
+    args=dict(quick=['-proto', '400', '-chains', '3', '-blocks', '14', '-rlp', '60'], escalated=['-proto', '1200', '-chains', '8', '-blocks', '18', '-rlp', '120'],
+              thorough=['-proto', '6000', '-chains', '40', '-blocks', '24', '-rlp', '250']),
     fingerprint_groups=['Replay'],
     rule='(proto) real transactions of all message kinds from the stateful generator and wire-level variants of them - appended explicit '
          'defaults, re-ordered and repeated fields, non-minimal varints in tags / lengths / values, ten-byte varints, a sub-message split into '
@@ -300,19 +331,25 @@ PROPS['C06'] = dict(
          'secp256k1 key are included; at later heights the identical bytes, content-preserving re-encodings, the 65-byte representation of the ETH '
          'key, the same bytes on a node of another chain id, and the originals far outside the acceptance window are offered; executed or not is '
          'recorded with everything executed before: an executed byte string must be acceptable to the model (M) and must not carry the signed '
-         'content of anything executed before, nor another chain / network id (V); non-trivial: byte strings that were executed',
+         'content of anything executed before, nor another chain / network id (V). (rlp) nonce-based Ethereum-wrapped transactions (memo RLP.V2) signed with real secp256k1 keys on a real chain: '
+         'transfers at the account nonce floor and over gaps, new content below the floor, the reserved nonce 2^64-1, included transactions offered '
+         'again (also far beyond the height window, which does not apply to them), an account drained to balance zero (its floor must survive), and '
+         'wrappers that are not the conversion of the signed Ethereum transaction (fee, nonce field, created height, time, message, legacy signing '
+         'domain); floor before / after and executed-or-not must equal model/Nonce.v (M) and satisfy the floor rule on their own (V); '
+         'non-trivial: byte strings that were executed',
     modelled='hand-modelled: the protobuf wire format of lib.Transaction (permissive decoder with last-wins / merge semantics and unknown-field '
              'rejection, canonical encoder, sign bytes), CheckTx\'s canonical-encoding check, CheckReplay (ids, hash lookup, window), CheckSignature\'s '
              'canonical-key check, same-block de-duplication, the never-pruned transaction index. Parameters (hypotheses, never axioms): signature '
-             'verification, canonical key representation. Not modelled: the nonce-based replay floor of RLP-wrapped Ethereum transactions (RLPV2), '
+             'verification, canonical key representation. The nonce floor of RLP.V2 transactions (model/Nonce.v: CheckTx floor test, ApplyTransaction bump, VerifyRLPBytes as a '
+             'boolean). Not modelled: the RLP decoding and Ethereum signature recovery themselves (go-ethereum), legacy RLP wrappers (window-based, disabled from protocol version 2), '
              'mempool-level de-duplication, fees / authorization (C05).',
     assumptions=['the transaction hash is collision-free', 'a public key has exactly one canonical byte representation (enforced since the second C06 fix)',
                  'signatures are not malleable by third parties (BLS: unique; ed25519 and secp256k1: the libraries reject non-canonical S)',
                  'the transaction index is never pruned', 'strings are ASCII in the correspondence run (proto3 strings must be valid UTF-8)'],
     trusted_base=['model/Proto.v is a hand-written mirror of the protobuf decoding / encoding of lib.Transaction tied by the differential run against the real library on mutated encodings',
                   'model/Replay.v mirrors CheckTx / CheckReplay / ApplyTransactions de-duplication, tied by the chain-mode run'],
-    level_text='Unbounded theorems: along any chain and for any byte strings offered at any heights, no signed content (sign bytes, signer key, signature) is executed twice, executed transactions carry this network and chain id and lie inside the creation-height window; the canonical encoding is a bijection (decode after encode is the identity, at most one canonical byte string per transaction, sign bytes determine the content). The protobuf model is compared with the real library on mutated encodings and the replay model with a real chain on every check. Two replay vectors were found and repaired (KNOWN_FINDINGS.txt). Partial: nonce-based RLPV2 transactions are outside the model.',
-    level_note='Trusted: Coq kernel, the hand-written protobuf mirror tied by differential testing, ideal hash, crypto assumptions listed. RLPV2 (Ethereum nonce) path not modelled.',
+    level_text='Unbounded theorems: along any chain and for any byte strings offered at any heights, no signed content (sign bytes, signer key, signature) is executed twice, executed transactions carry this network and chain id and lie inside the creation-height window; the canonical encoding is a bijection (decode after encode is the identity, at most one canonical byte string per transaction, sign bytes determine the content). The protobuf model is compared with the real library on mutated encodings and the replay model with a real chain on every check. Two replay vectors were found and repaired (KNOWN_FINDINGS.txt). Nonce-based RLP.V2 transactions: the floor alone gives at-most-once execution of every signed content over any offer sequence (no reliance on the index or the window); the floor model is compared with a real chain on every check. Partial: RLP decoding / Ethereum signature recovery are go-ethereum code and are not modelled.',
+    level_note='Trusted: Coq kernel, the hand-written protobuf mirror tied by differential testing, ideal hash, crypto assumptions listed. For RLP.V2 the binding wrapper = conversion(signed Ethereum transaction) is a boolean of the model, exercised by the harness with six kinds of foreign wrappers.',
 )
 
 PROPS['C18'] = dict(
